@@ -102,6 +102,12 @@ CHECKS = {
          'rsa.generate_private_key sized by the request; each derivation/MAC/wrap arm builds the primitive its KMIP name denotes. The numeric claims of C06 '
          '(outputs equal reference implementations, Decrypt inverts Encrypt for every input) are run-time values and are NOT decided.',
          'Trusted: the cryptography package; T_ALIAS and T_DERIVE name tables.'),
+ 'C05': ('producer/consumer key-set agreement, role-typed argument binding through single-definition locals, inverse-map check of the ORM getter/setter, sentinel analysis of the column decorators, sibling agreement of the attribute helpers',
+         'PARTIAL CLAIM (structure only): for all 7 stored types the engine-produced dictionary keys equal the factory-consumed keys and read the stored field of that role; '
+         '36 converter bindings are role-correct; 32 wrapping-data columns are mapped inversely by getter and setter and the 13+6 key sets agree five ways; enum/mask column '
+         'decorators cannot lose a stored enumeration value; getter/index/setter/deleter helpers agree on the field per attribute; Get returns the access-checked object. '
+         'Exact value fidelity through SQLite/SQLAlchemy/TTLV and restarts is NOT decided (run-time values).',
+         'Trusted: SQLAlchemy column mapping; ROLE alias table.'),
 }
 
 NOT_YET = 'check not built yet in this session (rules designed in DESIGN.md section 4); will be claimed once its check exists and is silent on the unchanged tree'
